@@ -427,6 +427,8 @@ def main(argv=None):
                 log('mirrored source changed since the model was written (%s): using the thorough budget'
                     % ', '.join(stale_keys[:6]))
         run_tier = 'thorough' if (stale_keys and tier == 'quick') else tier
+        if run_tier != tier:
+            signal.alarm(max(cap, 5400))   # the deeper search gets the thorough time cap
         ctx = Ctx(prop_id, run_tier, seed, lean)
         run_property(mod, ctx, log)
         escalated = False
@@ -435,6 +437,7 @@ def main(argv=None):
         _unknown_now = [v for v in ctx.violations if v['key'] is None or v['key'] not in _open]
         if (ctx.disagreements or proof_broken) and not _unknown_now and run_tier == 'quick':
             log('proof obligation or correspondence broken; escalating the search to the thorough budget')
+            signal.alarm(max(cap, 5400))
             ctx2 = Ctx(prop_id, 'thorough', seed + 1, lean, escalated=True)
             ctx2.disagreements = list(ctx.disagreements)
             ctx2.violations = list(ctx.violations)
